@@ -146,6 +146,12 @@ func c15WellFormed(ref map[string]*c15Q, gateOn bool) []c15Break {
 						}
 					}
 				}
+				for k := range q.Min {
+					if _, ok := p.Min[k]; !ok {
+						out = append(out, c15Break{"min-keys-disagree", n, fmt.Sprintf("child declares min %s, parent %s{%s} does not", k, q.Parent, c15Ints(p.Min))})
+						break
+					}
+				}
 				if !agree {
 					out = append(out, c15Break{"max-keys-disagree", n, fmt.Sprintf("child{%s} parent %s{%s}", c15Ints(q.Max), q.Parent, c15Ints(p.Max))})
 				}
@@ -240,6 +246,7 @@ type c15Cfg struct {
 	depth   int
 	share   float64 // cap on the part's slice of the unit's time budget (1 = all that is left)
 	rich    bool    // include the content-carrying create profiles
+	keys    bool    // the key-set alphabet: two-dimensional max, mins with zero-valued and dropped dimensions (c15BuildKeyOps)
 	perms   []map[string]string
 }
 
@@ -256,7 +263,42 @@ func c15Short(p string) string {
 	return p
 }
 
+// c15BuildKeyOps: the alphabet of the key-set part. Every quota is created with max{cpu,memory}; mins declare one or
+// both dimensions, also with the value 0 (which the children's-sum clause cannot see), and are changed one at a time, so
+// that a parent can try to drop a dimension one of its children still declares and a child can try to declare one its
+// parent does not ("resource dimensions agree along the tree", for min: a child's min keys are among its parent's).
+var c15KeyMins = []map[string]int64{nil, {"cpu": 1}, {"cpu": 1, "memory": 0}, {"cpu": 3, "memory": 2}, {"cpu": 3}, {"memory": 0}}
+
+func c15BuildKeyOps(cfg c15Cfg) []c15Op {
+	var ops []c15Op
+	parents := append([]string{c15Root}, cfg.parents...)
+	for _, n := range cfg.names {
+		for _, p := range parents {
+			for _, ip := range []bool{false, true} {
+				ops = append(ops, c15Op{Kind: "create", Name: n, Parent: p, dupOK: !ip, C: c15Content{IsParent: ip, Max: c15MaxVals[1]},
+					label: fmt.Sprintf("create %s parent=%s isParent=%v max{cpu:4,memory:4}", n, c15Short(p), ip)})
+			}
+		}
+	}
+	for _, n := range cfg.names {
+		for _, m := range c15KeyMins {
+			ops = append(ops, c15Op{Kind: "update", Name: n, Field: "min", C: c15Content{Min: m}, label: fmt.Sprintf("update %s min{%s}", n, c15Ints(m))})
+		}
+		for _, m := range c15MaxVals[:2] {
+			ops = append(ops, c15Op{Kind: "update", Name: n, Field: "max", C: c15Content{Max: m}, label: fmt.Sprintf("update %s max{%s}", n, c15Ints(m))})
+		}
+		for _, p := range parents {
+			ops = append(ops, c15Op{Kind: "update", Name: n, Field: "parent", Parent: p, label: fmt.Sprintf("update %s parent=%s", n, c15Short(p))})
+		}
+		ops = append(ops, c15Op{Kind: "delete", Name: n, label: "delete " + n})
+	}
+	return ops
+}
+
 func c15BuildOps(cfg c15Cfg) []c15Op {
+	if cfg.keys {
+		return c15BuildKeyOps(cfg)
+	}
 	var ops []c15Op
 	parents := append([]string{c15Root}, cfg.parents...)
 	for _, n := range cfg.names {
@@ -881,12 +923,14 @@ func c15Configs(env *mc.Env) []c15Cfg {
 	// The cheap parts run first with a capped share; the main part runs last and gets whatever budget is left.
 	if env.Thorough() {
 		return []c15Cfg{
+			{part: "hist-keys", names: abc, parents: []string{"a", "b", "c"}, depth: 7, share: 0.15, keys: true},
 			{part: "hist-pod-on-a", names: ab, parents: []string{"a", "b", "missing"}, podOn: "a", depth: 8, share: 0.2, rich: true},
 			{part: "hist-gate-updatekey", names: abc, parents: []string{"a", "b", "c", "missing"}, gateOn: true, depth: 7, share: 0.3, rich: true},
 			{part: "hist-3names", names: abc, parents: []string{"a", "b", "c", "missing"}, depth: 7, share: 1, rich: true},
 		}
 	}
 	return []c15Cfg{
+		{part: "hist-keys", names: ab, parents: []string{"a", "b"}, depth: 6, share: 0.2, keys: true},
 		{part: "hist-pod-on-a", names: ab, parents: []string{"a", "b", "missing"}, podOn: "a", depth: 5, share: 0.3, rich: true},
 		{part: "hist-gate-updatekey", names: ab, parents: []string{"a", "b", "missing"}, gateOn: true, depth: 5, share: 0.25, rich: true},
 		{part: "hist-3names", names: abc, parents: []string{"a", "b", "c", "missing"}, depth: 5, share: 1, rich: true},
